@@ -22,7 +22,7 @@ class C20:
             "first_line given, or code with a backward jump; distinct = (host, object kind, first_line, program)")
     assumptions = ["the host's dis is ground truth; CACHE pseudo-instructions (which xdis shows and dis hides) are "
                    "filtered; 3.13 starts_line is a bool: line_number is used; comparison operators by cmp_op index"]
-    budgets = {"quick": {"shards": 14, "examples": 24, "seconds": 80},
+    budgets = {"quick": {"shards": 14, "examples": 30, "seconds": 75},
                "thorough": {"shards": 16, "examples": 1500, "seconds": 1200}}
 
     def strategy(self, ctx):
@@ -34,7 +34,7 @@ class C20:
                 return {"t": "api", "host": h, "v": v, "src": draw(gp.programs(v, size=draw(st.integers(2, 4))))}
             h = draw(st.sampled_from(HOSTS))
             fl = draw(st.sampled_from([None, None, 0, 1, 100, 100000, -5]))
-            return {"t": "host", "host": h, "first_line": fl, "src": draw(gp.programs(h, exec_safe=True, size=draw(st.integers(2, 4))))}
+            return {"t": "host", "host": h, "first_line": fl, "src": draw(gp.programs(h, exec_safe=True, size=draw(st.integers(2, 4)), bulk=False))}
         return case()
 
     def judge(self, case, ctx):
@@ -75,7 +75,7 @@ class C20:
                 return res
             x = {"tree": ref["tree"], "dis": r["r"]["dis"]}
             c = pd.compare_program(v, ref, x)
-            for a in ("decode", "argval", "jump", "labels", "lines"):
+            for a in ("tiling", "decode", "argval", "jump", "labels", "lines"):
                 for sig, msg in c.fails.get(a, []):
                     if "is_jump_target" in sig:
                         continue        # get_instructions (like dis's) has no handler targets; flags are case A's subject
